@@ -252,8 +252,10 @@ package sourcebundle
 
 // The callbacks handed to dependency finders.
 //@ func (*Builder).resolvePending$2
+//@   closure-invariant C19.cb.builder: b != nil
 //@   at-call append C08.cb.remote-pushes-reported: a1.sourceAddr == source && a1.depFinder == depFinder
 //@ func (*Builder).resolvePending$3
+//@   closure-invariant C19.cb.builder: b != nil
 //@   at-call append C08.cb.registry-pushes-reported: a1.sourceAddr == source && a1.versions == allowedVersions && a1.depFinder == depFinder
 //@ func (*Builder).resolvePending$4
 //@   at-call append C12.cb.local-error-becomes-diag: dyntype(a1, "*sourcebundle.internalDiagnostic") && unbox(a1, "*sourcebundle.internalDiagnostic").severity == DiagError
